@@ -702,6 +702,64 @@ fn builder_leg(depth: usize) -> Value {
             }
         }
     }
+    // a file recorded, rewritten in place with other bytes of the same length and its modification
+    // time put back (what `cp -p`, `tar -x`, `rsync -t`, `touch -r` do), recorded again - through
+    // record_artifacts, record_artifact and in_toto_run. The digests are those of the bytes on disk.
+    {
+        let target = "t/f1";
+        let original = std::fs::read(target).unwrap_or_default();
+        let mtime = std::fs::metadata(target).and_then(|m| m.modified()).ok();
+        let rewrite = |bytes: &[u8]| {
+            let _ = std::fs::write(target, bytes);
+            if let (Some(t), Ok(f)) = (mtime, std::fs::OpenOptions::new().write(true).open(target)) {
+                let _ = f.set_modified(t);
+            }
+        };
+        let mut other = original.clone();
+        for b in other.iter_mut() {
+            *b ^= 0x55;
+        }
+        let al = [in_toto::crypto::HashAlgorithm::Sha256];
+        for round in 0..3 {
+            // round 0 records the original (fills whatever the library may remember), then the
+            // content alternates while length and modification time stay
+            rewrite(if round % 2 == 0 { &original } else { &other });
+            n += 1;
+            let query = json!({"history": "record, rewrite same length + restore mtime, record", "round": round});
+            let reference = fswalk(&s(&["t"]), None, None);
+            match run_impl(&s(&["t"]), None, None) {
+                Err((l, m)) => mismatches.push(json!({"key": format!("panic:{l}"), "query": query, "what": m})),
+                Ok(imp) => {
+                    if let (Expect::Map(a), Expect::Map(b)) = (&imp, &reference) {
+                        if a != b {
+                            mismatches.push(json!({"key": "stale-digest-after-rewrite", "query": query, "implementation": format!("{:?}", a.get("t/f1")), "reference": format!("{:?}", b.get("t/f1"))}));
+                        }
+                    }
+                }
+            }
+            let want = util::hex(&util::sha256(&std::fs::read(target).unwrap_or_default()));
+            if let Guard::Done(Ok((_, d))) = guard(|| in_toto::runlib::record_artifact(target, &al, None)) {
+                let got = serde_json::to_value(&d).ok().and_then(|v| v["sha256"].as_str().map(String::from)).unwrap_or_default();
+                if got != want {
+                    mismatches.push(json!({"key": "stale-digest-after-rewrite", "query": query, "entry": "record_artifact", "implementation": got, "reference": want}));
+                }
+            }
+        }
+        // the same inside one step: the command patches the file in place and keeps its time stamp
+        rewrite(&original);
+        n += 1;
+        let script = "cp -p t/f1 t/.stamp && tr '\\000-\\377' '\\001-\\377\\000' < t/.stamp > t/f1 && touch -r t/.stamp t/f1 && rm -f t/.stamp";
+        let pre = util::hex(&util::sha256(&original));
+        if let Guard::Done(Ok(mb)) = guard(|| in_toto_run("step", None, &["t/f1"], &["t/f1"], &["sh", "-c", script], None, None, None)) {
+            let v = serde_json::to_value(&mb.metadata).unwrap_or_default();
+            let post = util::hex(&util::sha256(&std::fs::read(target).unwrap_or_default()));
+            let (gm, gp) = (v["materials"]["t/f1"]["sha256"].as_str().unwrap_or("").to_string(), v["products"]["t/f1"]["sha256"].as_str().unwrap_or("").to_string());
+            if post != pre && (gm != pre || gp != post) {
+                mismatches.push(json!({"key": "stale-digest-after-rewrite", "query": {"history": "in_toto_run whose command patches a file in place and keeps its time stamp"}, "materials": gm, "products": gp, "before": pre, "after": post}));
+            }
+        }
+        let _ = std::fs::write(target, &original);
+    }
     let _ = std::env::set_current_dir("/");
     mismatches.truncate(12);
     json!({"queries": n, "mismatches": mismatches, "reference_maps": n, "reference_errors": 0, "reference_entries": entries})
@@ -895,7 +953,7 @@ pub fn run(tier: Tier) -> i32 {
     }
     crate::envprobe::judge(&mut acc, "C18:", &mut c.extra);
     c.acc = acc;
-    c.rule = "state = directory tree reached by appending one node under an existing directory (mkdir; write with size in {0,1,1023,1024,1025,4097,8193,70001} for single-node trees and {1,1025} otherwise; symlink absolute/relative to any existing node or to an ancestor incl. the root), names assigned in the fixed order a, ab, .h, 'e é', deduplicated on the sorted listing; per tree a menu of queries (whole tree x 7 strip lists x 10 algorithm lists (incl. lists that mix a supported with an unsupported or mis-cased name: an error, never a silently shortened digest set); non-normalised roots; each top-level node as root; two roots in both orders; overlapping and repeated roots) through record_artifacts in a private cwd, compared with an independent walker; plus in_toto_run with 7 commands on a subset, and with 6 argument variants (materials and products from different paths, other algorithms, strip prefixes, one side empty) x 4 commands; plus every history of depth <= 4 (5) over {add_material(f), add_product(f), write(f, c)} on 2 files x 3 contents through LinkMetadataBuilder, calculate_hashes over 8 sizes x 6 reader shapes (short reads, interrupted) x 4 algorithm lists; and record_artifact on one file x 8 sizes x 4 algorithm lists x 8 strip lists x 4 spellings; call histories (a step run - or failing to start - with run directory none / . / t / t/t / a missing one, then the tree recorded again: the process's working directory is unchanged and the recording equals the reference); a nested tree whose directory names repeat the strip prefix (t/f1, t/t/f2, t/t/t/f3, t/tt, t/t/tt2) x 9 strip lists x 3 root lists through record_artifacts and file by file through record_artifact. non-trivial = trees with a symlink, and run cases".into();
+    c.rule = "state = directory tree reached by appending one node under an existing directory (mkdir; write with size in {0,1,1023,1024,1025,4097,8193,70001} for single-node trees and {1,1025} otherwise; symlink absolute/relative to any existing node or to an ancestor incl. the root), names assigned in the fixed order a, ab, .h, 'e é', deduplicated on the sorted listing; per tree a menu of queries (whole tree x 7 strip lists x 10 algorithm lists (incl. lists that mix a supported with an unsupported or mis-cased name: an error, never a silently shortened digest set); non-normalised roots; each top-level node as root; two roots in both orders; overlapping and repeated roots) through record_artifacts in a private cwd, compared with an independent walker; plus in_toto_run with 7 commands on a subset, and with 6 argument variants (materials and products from different paths, other algorithms, strip prefixes, one side empty) x 4 commands; plus every history of depth <= 4 (5) over {add_material(f), add_product(f), write(f, c)} on 2 files x 3 contents through LinkMetadataBuilder, calculate_hashes over 8 sizes x 6 reader shapes (short reads, interrupted) x 4 algorithm lists; and record_artifact on one file x 8 sizes x 4 algorithm lists x 8 strip lists x 4 spellings; a file rewritten in place with other bytes of the same length and its modification time restored, between two recordings (record_artifacts, record_artifact, and inside one in_toto_run); call histories (a step run - or failing to start - with run directory none / . / t / t/t / a missing one, then the tree recorded again: the process's working directory is unchanged and the recording equals the reference); a nested tree whose directory names repeat the strip prefix (t/f1, t/t/f2, t/t/t/f3, t/tt, t/t/tt2) x 9 strip lists x 3 root lists through record_artifacts and file by file through record_artifact. non-trivial = trees with a symlink, and run cases".into();
     c.bound_completed = format!("all trees with <= {max_nodes} nodes ({} trees{})", trees.len(), if capped { ", capped" } else { "" });
     c.assume("real filesystem (tmpfs); no dangling symlinks, devices, permission errors or non-UTF-8 names");
     c.assume("a file reached twice through the same key is one entry; two different files with one key must be an error");
